@@ -54,6 +54,7 @@ func run(seed int64, n int, dir string, _ []string) {
 		treeN = 2500
 	}
 	dml.TreeJoinCorpus(g, o, root, treeN)
+	tableNameSpellings(o, root)
 	// corpus: the witness of the known finding "a column added to a fixed-length table with explicit positions is not written by COMMIT"
 	dml.FixedAddWitness(g, o, root)
 	// corpus: every kind of successful change as the first / second / third change of a table of every file format, COMMIT, read back by a fresh process
